@@ -39,10 +39,7 @@ def skel_asUncatchableException : List String := [
   "return nil"]
 
 def skel_isUncatchableException : List String := [
-  "for ; e != nil; e = errors.Unwrap(e)",
-  ".if _, ok := e.(uncatchableException); ok",
-  "..return true",
-  "return false"]
+  "return errors.As(e, &u)"]
 
 def skel_handleThrow : List String := [
   "ex := vm.exceptionFromValue(arg)",
@@ -52,6 +49,7 @@ def skel_handleThrow : List String := [
   "..continue",
   ".if int(tf.callStackLen) < len(vm.callStack)",
   "..vm.prg, vm.newTarget, vm.result, vm.pc, vm.sb, vm.args = ctx.prg, ctx.newTarget, ctx.result, ctx.pc, ctx.sb, ctx.args",
+  "._ = vm._restoreStacks(tf.iterLen, tf.refLen, ex != nil)",
   ".if tf.catchPos == tryPanicMarker",
   "..break",
   ".if tf.catchPos >= 0",
@@ -98,6 +96,7 @@ def skel_runWrapped : List String := [
   "...if ex := asUncatchableException(x); ex != nil",
   "....err = ex",
   "....if len(r.vm.callStack) == 0",
+  ".....r.leaveAbrupt()",
   "...else",
   "....panic(x)",
   ".}",
@@ -173,6 +172,13 @@ def skel_iterStep : List String := [
   "return"]
 
 def skel_Try : List String := [
+  "defer func() { if x := recover",
+  ".func{",
+  "..if x := recover(); x != nil",
+  "...if len(r.vm.callStack) == 0 && asUncatchableException(x) != nil",
+  "....r.leaveAbrupt()",
+  "...panic(x)",
+  ".}",
   "return r.vm.try(f)"]
 
 def skel_rtry : List String := [
@@ -189,6 +195,82 @@ def skel_AssertFunction : List String := [
 def skel_leave : List String := [
   "for ; len(r.jobQueue) > 0; ",
   ".range jobs"]
+
+def skel_leaveAbrupt : List String := []
+
+def skel_restoreStacks : List String := [
+  "defer func() { if int(iterLen)",
+  ".func{",
+  "..if int(iterLen) < len(vm.iterStack)",
+  "...range tail",
+  "..if int(refLen) < len(vm.refStack)",
+  "...range tail",
+  ".}",
+  "for i := len(iterTail) - 1; i >= 0; i--",
+  ".if iter := iterTail[i].iter; iter != nil && closeIters",
+  "..ex1 := vm.try(func)",
+  "...func{",
+  "....iter.returnIter()",
+  "...}",
+  "..if ex1 != nil && ex == nil",
+  "...ex = ex1",
+  "range refTail",
+  "return"]
+
+def skel_restoreStacksWrapper : List String := [
+  "return vm._restoreStacks(iterLen, refLen, true)"]
+
+def skel_generatorObjectStep : List String := [
+  "if ex != nil",
+  ".panic(ex)",
+  "switch resType",
+  "case resultYield",
+  ".return g.val.runtime.createIterResultObject(res, false)",
+  "case resultYieldDelegate",
+  ".return g.delegate(res)",
+  "case resultYieldRes",
+  ".return g.val.runtime.createIterResultObject(res, false)",
+  "case resultYieldDelegateRes",
+  ".return g.delegate(res)",
+  "case resultNormal",
+  ".return g.val.runtime.createIterResultObject(res, true)",
+  "default",
+  ".panic(g.val.runtime.NewTypeError(\"Runtime bug: unexpected result type: %v\", resType))"]
+
+def skel_generatorStep : List String := [
+  "defer func() { if !completed {",
+  ".func{",
+  "..if !completed",
+  "...if l := int(g.tryStackLen) - 1; l >= 0 && l < len(g.vm.tryStack)",
+  ".}",
+  "res, resultType, ex = g.step1()",
+  "return"]
+
+def skel_asyncRunnerStep : List String := [
+  "if done || ex != nil",
+  ".if ex == nil",
+  "..ar.promiseCap.resolve(res)",
+  ".else",
+  "..ar.promiseCap.reject(ex.val)",
+  ".return"]
+
+def skel_asyncRunnerStart : List String := [
+  "res, resType, ex := ar.gen.step()",
+  "if ex != nil"]
+
+def skel_ExceptionError : List String := [
+  "if e == nil",
+  ".return \"<nil>\"",
+  "if e.val != nil",
+  ".b.WriteString(e.val.String())",
+  "return b.String()"]
+
+def skel_ExceptionString : List String := [
+  "if e == nil",
+  ".return \"<nil>\"",
+  "if e.val != nil",
+  ".b.WriteString(e.val.String())",
+  "return b.String()"]
 
 def skel_underscoreCall : List String := [
   "vm.pushTryFrame(tryPanicMarker, -1)",
@@ -210,11 +292,13 @@ def skel_RunProgram : List String := [
   "defer func() { if recursive { ",
   ".func{",
   "..if recursive",
+  "...if pushed",
   "..else",
   "..if x := recover(); x != nil",
   "...if ex := asUncatchableException(x); ex != nil",
   "....err = ex",
   "....if len(vm.callStack) == 0",
+  ".....r.leaveAbrupt()",
   "...else",
   "....panic(x)",
   ".}",
@@ -267,6 +351,7 @@ def recoverSites : List String := [
   "runtime.go:*Runtime.RunProgram",
   "runtime.go:*Runtime.runWrapped",
   "runtime.go:tryFunc",
+  "runtime.go:*Runtime.Try",
   "vm.go:*vm.try",
   "vm.go:*vm.runTryInner"]
 
@@ -296,6 +381,15 @@ theorem tie_skel_Try : GojaModel.Generated.C14.skel_Try = Expected.skel_Try := b
 theorem tie_skel_rtry : GojaModel.Generated.C14.skel_rtry = Expected.skel_rtry := by rfl
 theorem tie_skel_AssertFunction : GojaModel.Generated.C14.skel_AssertFunction = Expected.skel_AssertFunction := by rfl
 theorem tie_skel_leave : GojaModel.Generated.C14.skel_leave = Expected.skel_leave := by rfl
+theorem tie_skel_leaveAbrupt : GojaModel.Generated.C14.skel_leaveAbrupt = Expected.skel_leaveAbrupt := by rfl
+theorem tie_skel_restoreStacks : GojaModel.Generated.C14.skel_restoreStacks = Expected.skel_restoreStacks := by rfl
+theorem tie_skel_restoreStacksWrapper : GojaModel.Generated.C14.skel_restoreStacksWrapper = Expected.skel_restoreStacksWrapper := by rfl
+theorem tie_skel_generatorObjectStep : GojaModel.Generated.C14.skel_generatorObjectStep = Expected.skel_generatorObjectStep := by rfl
+theorem tie_skel_generatorStep : GojaModel.Generated.C14.skel_generatorStep = Expected.skel_generatorStep := by rfl
+theorem tie_skel_asyncRunnerStep : GojaModel.Generated.C14.skel_asyncRunnerStep = Expected.skel_asyncRunnerStep := by rfl
+theorem tie_skel_asyncRunnerStart : GojaModel.Generated.C14.skel_asyncRunnerStart = Expected.skel_asyncRunnerStart := by rfl
+theorem tie_skel_ExceptionError : GojaModel.Generated.C14.skel_ExceptionError = Expected.skel_ExceptionError := by rfl
+theorem tie_skel_ExceptionString : GojaModel.Generated.C14.skel_ExceptionString = Expected.skel_ExceptionString := by rfl
 theorem tie_skel_underscoreCall : GojaModel.Generated.C14.skel_underscoreCall = Expected.skel_underscoreCall := by rfl
 theorem tie_skel_RunProgram : GojaModel.Generated.C14.skel_RunProgram = Expected.skel_RunProgram := by rfl
 theorem tie_skel_wrapReflectErr : GojaModel.Generated.C14.skel_wrapReflectErr = Expected.skel_wrapReflectErr := by rfl
@@ -354,13 +448,26 @@ theorem tie_uncatchable_types :
       (fun t => match markerOfType t with | some e => e.isMarker && e.isUncatchable | none => false) = true ∧
     GojaModel.Generated.C14.uncatchableTypes.length = 2 := by decide
 
-/-- asUncatchableException on representatives: marker type, error wrapping a marker, join around a marker (NOT
-recognised: errors.Unwrap does not descend into Unwrap() []error), plain error, non-error. -/
+/-- asUncatchableException on representatives: marker type, error wrapping a marker, join around a marker
+(recognised since fix cbcbe34: errors.As descends into Unwrap() []error), plain error, non-error. -/
 theorem tie_asUncatchable_model :
     asUncatchableException (.goErr (.stackOverflow 1)) = some (.go (.stackOverflow 1)) ∧
     asUncatchableException (.goErr (.wrap 2 (.interrupted 1))) = some (.go (.wrap 2 (.interrupted 1))) ∧
-    asUncatchableException (.goErr (.join 2 (.interrupted 1) (.plain 3))) = none ∧
+    asUncatchableException (.goErr (.join 2 (.interrupted 1) (.plain 3))) =
+      some (.go (.join 2 (.interrupted 1) (.plain 3))) ∧
     asUncatchableException (.goErr (.plain 1)) = none ∧
     asUncatchableException (.other 1) = none := by decide
+
+/-- handleThrow closes open iterators exactly when the panic value is a JS exception (`ex != nil`): the model's
+`ji` frame logs the iterator's return() only in that case. -/
+theorem tie_handleThrow_closeIters :
+    GojaModel.Generated.C14.skel_handleThrow.contains "._ = vm._restoreStacks(tf.iterLen, tf.refLen, ex != nil)" = true ∧
+    GojaModel.Generated.C14.skel_restoreStacks.contains ".if iter := iterTail[i].iter; iter != nil && closeIters" = true ∧
+    (applyFrame 3 .ji true (.panic (.exc ⟨.obj 1, .thrower⟩) .thrower)).2 = [⟨3, .iterReturn⟩] ∧
+    (applyFrame 3 .ji true (.panic (.goErr (.interrupted 1)) .thrower)).2 = [] := by decide
+
+/-- the classifier is `errors.As` (whole wrap tree), not an errors.Unwrap loop -/
+theorem tie_isUncatchable_is_errorsAs :
+    GojaModel.Generated.C14.skel_isUncatchableException = ["return errors.As(e, &u)"] := by decide
 
 end GojaModel.C14.Tie
